@@ -85,7 +85,7 @@ theorem execStmts_append (A : Alg) (l m : List Stmt) (ρ : Env A.V) :
     cases execStmt A ρ s <;> simp [ih]
 
 /-- running the injected assignments = updating with the (typed or untyped) constant values -/
-theorem execStmts_injected (A : Alg) (ty : String → Option Ty) (kv : List (String × PyVal))
+theorem execStmts_injected (A : Alg) (ty : String → PyVal → Option Ty) (kv : List (String × PyVal))
     (ρ : Env A.V) :
     execStmts A (injectedWith ty kv) ρ = (kvVals A ty kv).map (setAll ρ) := by
   induction kv generalizing ρ with
@@ -98,7 +98,7 @@ theorem execStmts_injected (A : Alg) (ty : String → Option Ty) (kv : List (Str
     cases hv : evalExp A Env.empty (toVal v) with
     | none => simp
     | some x =>
-      cases ht : ty k with
+      cases ht : ty k v with
       | none =>
         simp only [Option.bind]
         rw [ih]
@@ -111,7 +111,7 @@ theorem execStmts_injected (A : Alg) (ty : String → Option Ty) (kv : List (Str
           rw [ih]
           cases kvVals A ty t <;> simp [setAll]
 
-theorem kvVals_keys (A : Alg) (ty : String → Option Ty) (kv : List (String × PyVal))
+theorem kvVals_keys (A : Alg) (ty : String → PyVal → Option Ty) (kv : List (String × PyVal))
     (vals : List (String × A.V)) (h : kvVals A ty kv = some vals) :
     vals.map (·.1) = kv.map (·.1) := by
   induction kv generalizing vals with
